@@ -563,7 +563,8 @@ func (in *Inst) instr(ins ssa.Instruction, st *State) {
 	case *ssa.Defer:
 		in.deferInstr(x, st)
 	case *ssa.Go:
-		e.note("go statement: the spawned goroutine is not modelled (" + in.fn.Name() + ")")
+		e.note("go statement: the spawned goroutine is not modelled (" + in.fn.Name() + "); the statement is an event `go` for call-site clauses")
+		in.goEvent(x, st)
 	case *ssa.Send:
 		e.note("channel send is a no-op in the sequential abstraction")
 	case *ssa.Select:
